@@ -62,7 +62,7 @@ def _call(args: tuple) -> dict[str, Any]:
 
 def run_family(prop: str, part_id: str, task: Callable[..., Any], programs: Iterable[tuple[str, Any]],
                known: list[dict[str, Any]], classify: Callable[[dict[str, Any]], str | None] | None = None,
-               bounds: str = "", max_violation_files: int = 12) -> dict[str, Any]:
+               bounds: str = "", max_violation_files: int = 12, chunksize: int = 4) -> dict[str, Any]:
     """task(name, prog) -> {"status": "ok"|"violation"|"inconclusive"|"rejected"|"harness_error", ...,
     "queries": {"q1":..,"q2":..,"solver_s":..,"states":..,"transitions":..,"k_hist":{..}}, "routines": n}
     classify(result) -> id of a known finding or None"""
@@ -75,7 +75,7 @@ def run_family(prop: str, part_id: str, task: Callable[..., Any], programs: Iter
     n_ok = n_rej = n_routines = n_equal = 0
     n_disagree = 0
     with mp.Pool(JOBS, maxtasksperchild=200) as pool:
-        for r in pool.imap_unordered(_call, items, chunksize=4):
+        for r in pool.imap_unordered(_call, items, chunksize=chunksize):
             q = r.get("queries") or {}
             for k in agg:
                 agg[k] += q.get(k, 0)
